@@ -733,11 +733,14 @@ func callBuiltin(caller *frame, callpos token.Pos, fn *ssa.Builtin, args []value
 			return append(args[0].([]value), strToBytes(s)...)
 		}
 		// the appended elements are copies: struct and array elements must not share their cells with the source
-		dst := args[0].([]value)
-		for _, e := range args[1].([]value) {
-			dst = append(dst, copyVal(e))
+		// (the source is read completely first: destination and source may overlap, as in
+		// `append(s[:i+1], s[i:]...)`)
+		srcElems := args[1].([]value)
+		tmp := make([]value, len(srcElems))
+		for k, e := range srcElems {
+			tmp[k] = copyVal(e)
 		}
-		return dst
+		return append(args[0].([]value), tmp...)
 
 	case "copy":
 		src := args[1]
